@@ -15,7 +15,7 @@ from typing import (
 
 from typing_extensions import Self
 
-from formulaic.errors import FormulaParsingError
+from formulaic.errors import FormulaParsingError, FormulaSyntaxError
 from formulaic.utils.layered_mapping import LayeredMapping
 from formulaic.utils.structured import Structured
 
@@ -342,7 +342,11 @@ class DefaultOperatorResolver(OperatorResolver):
             )
 
         def power(arg: OrderedSet[Term], power: OrderedSet[Term]) -> OrderedSet[Term]:
-            power_term = next(iter(power))
+            power_term = next(iter(power), None)
+            if power_term is None:
+                raise FormulaSyntaxError(
+                    "The right-hand argument of `**` must be a positive integer."
+                )
             if (
                 not len(power_term.factors) == 1
                 or not power_term.factors[0].token
